@@ -150,6 +150,52 @@ package db
 //@   ensures[metadata-only]       isNilErr(result1) ==> result0.Doc == nil && !result0.IsTombstone && len(result0.XattrsToDelete) == 0
 //@   ensures[sync-xattr]          isNilErr(result1) ==> (base.SyncXattrName in result0.Xattrs) && result0.Xattrs[base.SyncXattrName] == callres(MarshalWithXattrs, 1, 1)
 
+// ---- ResyncDocument: what the storage layer re-reads when the CAS write has to be retried ----
+//
+// The xattr keys handed to WriteUpdateWithXattrs are the ones it fetches when it has to (re-)read the document. They
+// must cover every input of the sync function: the system xattrs AND the configured user xattr (meta.xattrs.<key>),
+// otherwise a retry evaluates the new sync function on a document without its user xattr.
+//@ func DatabaseCollection.syncGlobalSyncMouRevSeqNoAndUserXattrKeys
+//@   safety on
+//@   ensures[system]    elem(result, base.SyncXattrName) && elem(result, base.VvXattrName) && elem(result, base.VirtualXattrRevSeqNo) && elem(result, base.MouXattrName) && elem(result, base.GlobalXattrName)
+//@   ensures[user-key]  c.UserXattrKey() != "" ==> elem(result, c.UserXattrKey())
+//@   ensures[fresh]     !old(allocated(now(result)))
+
+// The same for the list the ordinary write path (updateAndReturnDoc) hands to WriteUpdateWithXattrs.
+//@ func DatabaseCollection.syncGlobalSyncMouAndUserXattrKeys
+//@   safety on
+//@   ensures[system]    elem(result, base.SyncXattrName) && elem(result, base.VvXattrName) && elem(result, base.MouXattrName) && elem(result, base.GlobalXattrName)
+//@   ensures[user-key]  c.UserXattrKey() != "" ==> elem(result, c.UserXattrKey())
+//@   ensures[fresh]     !old(allocated(now(result)))
+
+//   rereads-all-sync-inputs  the key list is the one built by the helper above (system xattrs + user xattr key)
+//   writes-this-doc          the CAS write starts from the copy of the document the feed delivered
+//   surfaces                 its outcome (incl. "nothing to write" = ErrUpdateCancel) is the function's result
+//@ func DatabaseCollectionWithUser.ResyncDocument
+//@   modifies *
+//@   only-contracts syncGlobalSyncMouRevSeqNoAndUserXattrKeys
+//@   before[rereads-all-sync-inputs] call WriteUpdateWithXattrs#1 $3 == callres(syncGlobalSyncMouRevSeqNoAndUserXattrKeys, 1, 0)
+//@   before[writes-this-doc]         call WriteUpdateWithXattrs#1 $5 == previousDoc
+//@   ensures[surfaces]               called(WriteUpdateWithXattrs, 1) && result == callres(WriteUpdateWithXattrs, 1, 1)
+
+// ---- the end of a resync run: principals are invalidated, or the run fails ----
+//   propagates               a failing index initialisation / sequence read / principal enumeration (invalidateAllPrincipals)
+//                            / principal sequence update makes invalidatePrincipals fail: the run must not be reported as
+//                            completed while users and roles keep access computed under the old sync function
+//   inval-at-current-seq     principals are invalidated at the sequence read at the end of the run
+//   invalidated-when-changed when documents changed (and sequences are not being regenerated for all collections), success
+//                            means invalidateAllPrincipals ran and succeeded
+// Not reachable (engine): ResyncManagerDCP.Run (its named result `err` is captured by deferred closures and a defer is
+// registered conditionally: the heap, and with it `err`, is havocked at every return, so `propagates invalidatePrincipals#1`
+// cannot be proved there) and BackgroundManager[O].start's goroutine, which turns Run's error into state "error" instead of
+// "completed" (methods of generic types do not bind).
+//@ func ResyncManagerDCP.invalidatePrincipals
+//@   modifies *
+//@   only-contracts Errorf
+//@   propagates initializePrincipalDocsIndex#1 updateAllPrincipalsSequences#1 getSequence#1 invalidateAllPrincipals#1
+//@   before[inval-at-current-seq] call invalidateAllPrincipals#1 $0 == db && $3 == callres(getSequence, 1, 0)
+//@   ensures[invalidated-when-changed] isNilErr(result) && called(getSequence, 1) ==> called(invalidateAllPrincipals, 1) && isNilErr(callres(invalidateAllPrincipals, 1, 0))
+
 // ---- after the documents: every principal's computed access is invalidated ----
 //
 // Ghost record of the principals for which the invalidation call was made.
